@@ -190,6 +190,11 @@ def run_rejections(case, ctx):
   for nr_n, dr_n, cut_n in (("nr", "dr", "cutoff"), ("nrho", "drho", "cutoff_rho")):
     cls.append(("all_three", "%s : 11\n%s : 0.1\n%s : 1.0\n" % (nr_n, dr_n, cut_n)))
     cls.append(("step_alone", "%s : 0.1\n" % dr_n))
+    # an option that is present but empty is not an omitted option
+    cls.append(("empty_cutoff_with_nr_dr", "%s : 11\n%s : 0.1\n%s :\n" % (nr_n, dr_n, cut_n)))
+    cls.append(("empty_cutoff_with_nr", "%s : 11\n%s :\n" % (nr_n, cut_n)))
+    cls.append(("empty_dr_with_cutoff", "%s : 5.0\n%s :\n" % (cut_n, dr_n)))
+    cls.append(("empty_nr_with_dr", "%s :\n%s : 0.1\n" % (nr_n, dr_n)))
     for zero in ("0", "-1", "-0.5", "0.0"):
       zi = zero if "." not in zero else None
       if zi is not None:
